@@ -62,6 +62,10 @@ def spec_of(name):
         n = dict(ln)
         n["verse"] = {"content": "text*", "group": "block", "whitespace": "pre"}     # keeps newlines, but is not `code`
         return {"nodes": n, "marks": _bm}
+    if name == "at":
+        n = dict(ln)
+        n["fig"] = {"content": "inline*", "group": "block", "atom": True}      # an atom that is NOT a leaf (has content)
+        return {"nodes": n, "marks": _bm}
     if name == "ni":
         # two non-inclusive marks adjacent in rank (link, comment) beside inclusive ones
         m = {"link": _bm["link"], "comment": {"inclusive": False, "excludes": ""}, "em": _bm["em"], "strong": _bm["strong"]}
@@ -87,7 +91,7 @@ MX = {
     "mx6": {"m0": {}, "m1": {"inclusive": False}, "m2": {"excludes": "m0 m1"}, "m3": {"excludes": "_"}},
 }
 
-ALL = ["basic", "list", "strict", "title", "fixed", "docmarks", "iso", "table", "ni", "cx", "ws", "mx1", "mx2", "mx3", "mx4", "mx5", "mx6"]
+ALL = ["basic", "list", "strict", "title", "fixed", "docmarks", "iso", "table", "ni", "cx", "ws", "at", "mx1", "mx2", "mx3", "mx4", "mx5", "mx6"]
 
 _cache = {}
 
